@@ -94,14 +94,15 @@ CHECKS = {
                 "stdlib.moves.default_move_cz) play exactly this shape is decided per call by a recogniser evaluated in Coq on every enumerated valid "
                 "call. PROVED likewise for the transport shape of two_col_zone.rearrange and of move_by_waypoints with pick and drop (pick up on a grid "
                 "of trap sites, travel, release on the last grid whose sites are vacant or vacated by the move): accepted, the atom under tone (i,j) "
-                "ends on the (i,j) site of the last grid, the source sites are vacated, every other site is unchanged; recognised per call in Coq. "
-                "DECIDED BY ENUMERATION for the rest (multi-leg waypoint transports and the meaning of the pick/drop flags, gemini.logical "
-                "vertical_shift and gr_zero_to_one) and for invalid inputs: run on the layout the module "
+                "ends on the (i,j) site of the last grid, the source sites are vacated, every other site is unchanged; recognised per call in Coq; "
+                "and for the same transport with only the tones of two index lists lit (gemini.logical.vertical_shift via move_by_shift). "
+                "DECIDED BY ENUMERATION for the rest (multi-leg waypoint transports, the meaning of the pick/drop flags, that the recognised "
+                "paths' grids are the documented source/destination sites, gemini.logical.gr_zero_to_one) and for invalid inputs: run on the layout the module "
                 "builds for all layout sizes/spacings and index lists within the stated bounds (plus unsorted, duplicate, out-of-range, negative, "
                 "empty lists); each accepted call's played paths go through the simulator with the compatible occupancy; valid input must be "
                 "accepted, executable and end where the docstring says, invalid input must be rejected or still be executable. The Gallina "
                 "simulator is run by vm_compute on the same paths and must print the same verdict and final occupancy as the Python simulator.",
-        "note": NOTE_COMMON + " The library kernels are executed (kirin interpreter), not modelled in Coq: for the CZ move, rearrange and pick-and-drop waypoint moves the all-inputs claim rests on the parametric theorems plus the per-call shape recognition over the enumerated calls (these kernels are straight-line code, so the shape of their path does not depend on the input); for the Gemini moves and multi-leg transports it is exhaustive only within the enumerated bounds. The simulator is this development's definition of executability (no such oracle exists in the repo).",
+        "note": NOTE_COMMON + " The library kernels are executed (kirin interpreter), not modelled in Coq: for the CZ move, rearrange, pick-and-drop waypoint moves and the Gemini vertical shift the all-inputs claim rests on the parametric theorems plus the per-call shape recognition over the enumerated calls (these kernels are straight-line code, so the shape of their path does not depend on the input); which grids those paths visit (the documented sites) and multi-leg transports are exhaustive only within the enumerated bounds. The simulator is this development's definition of executability (no such oracle exists in the repo).",
         "technique": "Coq theorems over an AOD simulator model (conservation/acceptance invariants; parametric round-trip and transport theorems for the CZ / rearrange / waypoint moves with verified recognisers) + exhaustive bounded enumeration of library calls + vm_compute correspondence of the two simulators",
     },
     "C09": {
